@@ -9,6 +9,7 @@ Tie:    (1) the `specialize()` match table is extracted from the Rust text emitt
         source description.
 """
 import json
+import random
 import os
 import re
 import sys
@@ -105,6 +106,113 @@ def oracle_children(types, P, pv):
     return out
 
 
+def own_static_octets(types, d):
+    """Octets of the own fields of declaration d when every one of them has a simple static size; None when the
+    declaration has a payload / body or a field whose size depends on the value ("any length"); "?" when a field is of a
+    kind this oracle does not size (padding, optional fields, custom fields): no verdict."""
+    bits = 0
+    for f in d["fields"]:
+        k = f["kind"]
+        if f.get("cond") or k in ("padding_field", "flag_field", "checksum_field", "group_field"):
+            return "?"
+        if k in ("payload_field", "body_field"):
+            return None
+        if k in ("scalar_field", "reserved_field", "size_field", "count_field", "elementsize_field"):
+            bits += f["width"]
+        elif k == "fixed_field":
+            if f.get("width") is not None:
+                bits += f["width"]
+            else:
+                bits += types.decls[f["enum_id"]]["width"]
+        elif k == "typedef_field":
+            t = types.decls.get(f["type_id"])
+            if t is None:
+                return "?"
+            if t["kind"] == "enum_declaration":
+                bits += t["width"]
+            elif t["kind"] == "struct_declaration" and not t.get("parent_id"):
+                n = own_static_octets(types, t)
+                if n is None or n == "?":
+                    return n
+                bits += 8 * n
+            else:
+                return "?"
+        elif k == "array_field":
+            if f.get("size") is None:
+                return None
+            if f.get("width") is not None:
+                bits += f["size"] * f["width"]
+            else:
+                t = types.decls.get(f["type_id"])
+                if t is None:
+                    return "?"
+                if t["kind"] == "enum_declaration":
+                    bits += f["size"] * t["width"]
+                elif t["kind"] == "struct_declaration" and not t.get("parent_id"):
+                    n = own_static_octets(types, t)
+                    if n is None or n == "?":
+                        return n
+                    bits += 8 * n * f["size"]
+                else:
+                    return "?"
+        else:
+            return "?"
+    if bits % 8:
+        return "?"
+    return bits // 8
+
+
+def oracle_children_sized(types, P, pv):
+    """As oracle_children, with the payload length: a node N below child X counts only when the octets of the own fields
+    of X .. N (all static, no payload in N) equal the length of pv's payload; a node with a payload or a value-dependent
+    size counts for every length.  Returns None when some node cannot be sized by this oracle (no verdict)."""
+    decls = types.decls
+    plen = len(pv.get("payload") or [])
+    out = []
+    unsure = [False]
+
+    def walk(d, acc, octets):
+        acc = dict(acc)
+        for c in d.get("constraints", []):
+            acc[c["id"]] = c
+        own = own_static_octets(types, d)
+        if own == "?":
+            unsure[0] = True
+            return False
+        ok = bool(acc)
+        for k, c in acc.items():
+            if k in pv:
+                want = c["value"]
+                if want is None:
+                    want = tag_value(types, P, k, c["tag_id"])
+                if pv[k] != want:
+                    ok = False
+        has_payload = any(f["kind"] in ("payload_field", "body_field") for f in d["fields"])
+        if own is None and not has_payload:
+            total = None            # value-dependent size: any length
+        elif has_payload:
+            # the static fields around the payload are a lower bound only; deeper nodes are sized from the payload
+            total = None
+        else:
+            total = None if octets is None else octets + own
+        if ok and (total is None or total == plen):
+            return True
+        if not has_payload:
+            return False
+        # children of d are parsed from d's payload: the octets of d's own fields around it are taken first
+        sub = own_static_octets(types, dict(d, fields=[f for f in d["fields"] if f["kind"] not in ("payload_field", "body_field")]))
+        if sub == "?":
+            unsure[0] = True
+            return False
+        nxt = None if (octets is None or sub is None) else octets + sub
+        return any(walk(k2, acc, nxt) for k2 in decls.values() if k2.get("parent_id") == d["id"])
+
+    for x in decls.values():
+        if x.get("parent_id") == P and walk(x, {}, 0):
+            out.append(x["id"])
+    return None if unsure[0] else out
+
+
 def tag_value(types, P, field, tag):
     for d in types.parent_chain(types.decls[P]):
         for f in d["fields"]:
@@ -152,6 +260,29 @@ packet L3b : L2 (b = 10) { f: 8, g: 8 }
 ]
 
 
+def alias_sibling_trees(rng, n):
+    """A grandchild below an unconstrained alias child and a direct child of the root that carry the SAME constraint
+    values and differ only in their constant size: the root's specialize() has to match on the payload length across
+    two levels (added after a seeded change that sized such an arm by the alias instead of the grandchild)."""
+    out = []
+    for i in range(n):
+        alias = rng.choice(["Aa%d", "Mm%d", "Zz%d"]) % i
+        pre = rng.choice(["Bb", "Nn", "Yy"])
+        sized = rng.random() < 0.4
+        decls = ["packet Rq%d {\n  kind: 8,\n  g: 8,\n  %s_payload_\n}\n" % (i, "_size_(_payload_): 8,\n  " if sized else ""),
+                 "packet %s : Rq%d {\n  _payload_\n}\n" % (alias, i)]
+        vals = rng.sample(range(1, 9), rng.choice([2, 3]))
+        for j, v in enumerate(vals):
+            s1, s2 = rng.sample([1, 2, 3, 4], 2)
+            which = rng.choice(["both", "both", "grand", "direct"])
+            if which in ("both", "grand"):
+                decls.append("packet %sG%d : %s (kind = %d) {\n  x: %d\n}\n" % (alias, j, alias, v, 8 * s1))
+            if which in ("both", "direct"):
+                decls.append("packet %s%dD%d : Rq%d (kind = %d) {\n  y: %d\n}\n" % (pre, i, j, i, v, 8 * s2))
+        out.append(rng.choice(["little", "big"]) + "_endian_packets\n\n" + "\n".join(decls))
+    return out
+
+
 def main(argv):
     wc = WireCheck("C06", argv)
     run = wc.run
@@ -169,6 +300,7 @@ def main(argv):
         except ValueError:
             pass
     extra += SHAPES
+    extra += alias_sibling_trees(random.Random(wc.a.seed * 31 + 66), 4 if wc.a.tier == "quick" else 16)
     import checks.wire_common as WC
     orig = WC.corpus_texts
     WC.corpus_texts = lambda: orig() + extra
@@ -233,6 +365,34 @@ def main(argv):
                             r = wc.impl(i, P, "dec", s.hex())
                             if r.get("r") == "ok":
                                 pvals.append((r["value"], kid if (kind == "valid" and kid != P) else None))
+            # directed parent values: every constraint tuple and payload length that occurs in an arm of the emitted table or
+            # of the model's table (and the lengths next to them), on top of a decoded parent value — when the two tables
+            # differ, the difference is between two such points
+            if pvals and mt is not None and mt.get("r") == "ok" and et is not None and not isinstance(et, str):
+                ids = list(mt["ids"])
+                tuples, lens = set(), {0, 1, 2, 3}
+                for arms_ in (want_arms, got_arms):
+                    for _, pats in arms_:
+                        for pat in pats:
+                            tuples.add(tuple(pat[:len(ids)]))
+                            if len(pat) > len(ids) and isinstance(pat[len(ids)], int):
+                                lens |= {pat[len(ids)], pat[len(ids)] + 1}
+                drng = random.Random(wc.a.seed * 65537 + i * 131 + len(P))
+                base = pvals[0][0]
+                n_dir = 0
+                for t in sorted(tuples, key=json.dumps):
+                    for L in sorted(lens):
+                        if n_dir >= (40 if wc.a.tier == "quick" else 120) or L > 4096:
+                            break
+                        pv2 = dict(base)
+                        for k, val in zip(ids, t):
+                            if isinstance(val, int) and k in pv2:
+                                pv2[k] = val
+                        if "payload" in pv2:
+                            pv2["payload"] = [drng.randrange(256) for _ in range(L)]
+                        pvals.append((pv2, None))
+                        n_dir += 1
+                run.count("directed_parent_values", n_dir)
             seen = set()
             for pv, origin in pvals:
                 key = W.canon(pv)
@@ -273,11 +433,22 @@ def main(argv):
                 run.hist("oracle_candidates", str(min(len(cand), 3)))
                 if len(cand) == 0 and r["r"] == "ok" and got is not None and not (mt and mt.get("with_size")):
                     run.violation("impl", "%s::specialize() returned %s although no child's (or descendant's) constraints hold of the parent" % (P, got[0]), rep)
-                if len(cand) == 1 and r["r"] == "ok":
+                if len(cand) == 1 and r["r"] == "ok" and not (mt and mt.get("with_size")):
+                    # (a table that matches on the payload length does so in every arm: a parent whose constraint values are
+                    #  those of one child only but whose payload has another length is not that child — the sized oracle
+                    #  below decides those)
                     if got is None:
                         run.violation("impl", "%s::specialize() returned None although the constraints of %s (or of a descendant) hold" % (P, cand[0]), rep)
                     elif got[0] != cand[0]:
                         run.violation("impl", "%s::specialize() returned %s although only the constraints of %s (or of a descendant) hold" % (P, got[0], cand[0]), rep)
+                # ... with the payload length (children that differ only in size)
+                cs = oracle_children_sized(types, P, pv)
+                if cs is not None:
+                    run.hist("oracle_sized_candidates", str(min(len(cs), 3)))
+                    if len(cs) == 1 and r["r"] == "ok" and (got is None or got[0] != cs[0]):
+                        rep["signature"] = {"class": "sized-oracle"}
+                        run.violation("impl", "%s::specialize() returned %s although only %s (or a descendant) matches the parent's field values and payload length"
+                                      % (P, got[0] if got else "None", cs[0]), rep)
                 # Child::try_from(&parent)
                 for kid in kids:
                     fr = wc.impl(i, kid, "from:%s" % P, pv)
